@@ -135,14 +135,15 @@ class SStr(str):
 
     def __iter__(self):
         for c in self.chars:
-            yield mk([c])
+            yield c if type(c) is str else SStr([c])
 
     def __getitem__(self, i):
         if isinstance(i, slice):
             return mk(self.chars[i])
         if isinstance(i, SInt):
             raise Unsupported("symbolic index into symbolic string")
-        return mk([self.chars[i]])
+        c = self.chars[i]
+        return c if type(c) is str else SStr([c])
 
     def __add__(self, o):
         if not isinstance(o, str):
@@ -333,6 +334,31 @@ class SStr(str):
             else:
                 cur.append(c)
         parts.append(mk(cur))
+        return parts
+
+    def splitlines(self, keepends=False):
+        if keepends:
+            raise Unsupported("splitlines(keepends=True)")
+        bounds = [0x0A, 0x0B, 0x0C, 0x0D, 0x1C, 0x1D, 0x1E, 0x85, 0x2028, 0x2029]
+        parts, cur = [], []
+        i, ch = 0, self.chars
+        while i < len(ch):
+            c = ch[i]
+            isb = (ord(c) in bounds) if isinstance(c, str) else truth(z3.Or([c == b for b in bounds]))
+            if isb:
+                parts.append(mk(cur))
+                cur = []
+                # '\r\n' is one boundary
+                iscr = (c == "\r") if isinstance(c, str) else truth(c == 0x0D)
+                if iscr and i + 1 < len(ch):
+                    n = ch[i + 1]
+                    if (n == "\n") if isinstance(n, str) else truth(n == 0x0A):
+                        i += 1
+            else:
+                cur.append(c)
+            i += 1
+        if cur:
+            parts.append(mk(cur))
         return parts
 
     def join(self, it):
